@@ -37,8 +37,9 @@ MANIFEST = dict(
     technique="Coq proof (lia over Z) about guards regenerated from the source by a translator + exhaustive small-scope differential execution",
     design="7 (C20)")
 
-def tuples_of(ent):
-    doms = [range(lo, hi + 1) for _, lo, hi in ent["vars"]]
+def tuples_of(ent, tier="quick"):
+    wide = 2 if (tier == "thorough" and len(ent["vars"]) >= 4) else 0     # thorough: the many-variable entries reach sizes 5..6 too
+    doms = [range(lo - (wide if lo < 0 else 0), hi + wide + 1) for _, lo, hi in ent["vars"]]
     dc = ent["dontcare"]
     return [t for t in itertools.product(*doms) if not (dc and dc(*t))]
 
@@ -59,7 +60,7 @@ def generate(rng, tier):
     cases = []
     _counts.update(tuples=0, entries=0, rejected=0, accepted=0)
     for ent in guardtable.ENTRIES:
-        ts = tuples_of(ent)
+        ts = tuples_of(ent, tier)
         _counts["entries"] += 1
         _counts["tuples"] += len(ts)
         for t in ts:
